@@ -1,26 +1,44 @@
 /-
   C04 — debugging-information entries are decoded into exactly the encoded tree.
 
-  Property theorems only.  Layers:
-    * forms      : `form_table` (Props/TieC04: the parser registered for a form reads the operand
-                   encoding DWARF prescribes, all configurations) + `form_roundtrip`
-    * iteration  : `iter_dies_flatten` — whatever bytes the unit is made of, if the DIE found at
-                   each entry offset of `flatten` is that entry (`Covered`; the single-entry
-                   decoder, see below) the walk of `iter_DIEs` — sibling shortcuts, terminator
-                   tracking, recorded parents — yields exactly `flatten`, in order, with the
-                   encoded nesting; `tiling`; `ref_unit_relative`
-  Correspondence-only (model ↔ code checked by the harness on every run, no theorem yet):
-    the single-entry decoder `parseDIE` against `encEntry` (die_roundtrip incl. indirect chains),
-    `parseAbbrevTable` against `encAbbrevs` (abbrev_roundtrip), the v5 / type-unit headers
-    (v2–4 compile-unit headers: Props/C13 `chain_encoded_partial`), value translation through
-    .debug_str/.debug_str_offsets/.debug_addr/loclists/rnglists against `Spec.C04.resolve`,
-    `iterChildren`, section-relative and signature references.
+  Property theorems only.  Layers (each composed into the next; nothing is left to correspondence
+  except what the last paragraph lists):
+    * forms      : `form_table` (Props/TieC04) + `form_roundtrip`, `form_classes_total`
+    * abbrevs    : `abbrev_roundtrip`, `abbrev_roundtrip_table` — `_parse_abbrev_table` on `encAbbrevs`
+    * entries    : `die_roundtrip` (every form, DW_FORM_indirect chains of any length,
+                   DW_FORM_implicit_const), `die_null_roundtrip`, `top_die_roundtrip` (`get_top_DIE`
+                   with the deferred `_translate_indirect_attributes`)
+    * values     : `translate_resolve`, `translate_pre_resolve` — `_translate_attr_value` against
+                   `Spec.C04.resolve` under an explicit `Sections` layout
+    * iteration  : `iter_dies_flatten` (abstract in the entry decoder), `iter_dies_exact` (no hypothesis
+                   about the cache / the decoder left), `children_parent_exact`
+    * units      : `unit_header_roundtrip` (v2–5, six v5 unit types, both formats), `unit_chain`,
+                   `type_unit_header_roundtrip` (v4 `.debug_types`), `tiling`, `tiling_unit`,
+                   `tiling_type_unit`
+    * references : `ref_unit_relative`, `ref_section_relative` (DW_FORM_ref_addr through C13's unit lookup),
+                   `ref_sig8_partial` (`.debug_types`; the DWARF 5 half is a known finding)
+  Ties (Props/TieC04): struct fields, `enum_ok`, `enum_forms`, `raw2name_forms`, `enum_ut`, `base_names`.
+  Correspondence-only (model ↔ code checked by the harness on every run, no theorem):
+    * signature references to DWARF 5 type units: FALSE of the code, KNOWN FINDING (known_findings.json:
+      sig8-v5-type-unit); the scan of a whole `.debug_types` into the unit list `ref_sig8_partial` starts from;
+    * the glue between a parsed unit header and the `UnitCtx` of its entries (`Driver.C04.mkCtx`:
+      structs of (format, address_size, version), abbreviation table at debug_abbrev_offset) — the
+      theorems take the `UnitCtx` with `UnitOK` / `SecsOK` as hypotheses;
+    * the cache refinement of `_get_cached_DIE` / `_dielist` (C10), incl. a DIE fetched below
+      cu_die_offset taking the top DIE's slot (driver: `fetch` / `low_fetch`).
 -/
 import PyElf.Core.Construct
 import PyElf.Spec.DieTree
 import PyElf.Model.Die
 import PyElf.Proofs.DieForms
 import PyElf.Proofs.DieIter
+import PyElf.Proofs.DieAbbrev
+import PyElf.Proofs.DieEntry
+import PyElf.Proofs.DieUnit
+import PyElf.Proofs.DieHeaders
+import PyElf.Proofs.DieValues
+import PyElf.Proofs.DieTop
+import PyElf.Proofs.DieChildren
 import PyElf.Props.TieC04
 namespace PyElf.Props.C04
 open PyElf PyElf.Spec PyElf.Spec.C04 PyElf.Model.C04 PyElf.Proofs PyElf.Proofs.C04
@@ -123,6 +141,369 @@ theorem ref_unit_relative (U : UnitCtx) (l : List DieObs) (hcov : Covered (getCa
   rw [if_pos hr]
   exact hcov d hd
 
+/-! ### abbreviation tables -/
+
+/--
+  abbrev_roundtrip.  The abbreviation table parser on an encoded table, anywhere in any section
+  (`pre`, `rest` arbitrary), for every configuration and every registry with the `EnumOK` facts
+  (Props/TieC04 `enum_ok`: the regenerated one has them): arbitrary codes (any LEB128 padding),
+  unknown tag / attribute / form numbers (presented as numbers), DW_FORM_implicit_const values, the
+  `(0, 0)` pair and the zero code in any padding.  A repeated code overwrites the earlier
+  declaration, as in the Python dict (`abbrevMap`).
+-/
+theorem abbrev_roundtrip (env : Env) (hok : EnumOK env.enumDecode) (c : DwarfCfg) (ds : List AbbrevDecl) (endLen : Nat)
+    (hwf : ds.all wfDecl = true) (hend : 1 ≤ endLen) (pre rest : Bytes) (hoff : pre.length < 2 ^ 63) :
+    getAbbrevTable env (Spec.dwarfStructs c) (some (pre ++ encAbbrevs ds endLen ++ rest)) pre.length
+      = .ok (abbrevMap (namesOf env.enumDecode) ds) :=
+  getAbbrevTable_encoded hok c ds (fun d hd => List.all_eq_true.1 hwf d hd) hend hoff (drop_pre pre _ rest)
+
+/-- … for a well-formed table (distinct codes) the dict is the table itself, in order, and
+    `get_abbrev(code)` returns the declaration with that code -/
+theorem abbrev_roundtrip_table (env : Env) (hok : EnumOK env.enumDecode) (c : DwarfCfg) (ds : List AbbrevDecl)
+    (endLen : Nat) (hwf : wfAbbrevs ds endLen = true) (pre rest : Bytes) (hoff : pre.length < 2 ^ 63) :
+    getAbbrevTable env (Spec.dwarfStructs c) (some (pre ++ encAbbrevs ds endLen ++ rest)) pre.length
+        = .ok (ds.map fun d => (d.code, declVal (namesOf env.enumDecode) d))
+      ∧ ∀ d ∈ ds, mapGet? (ds.map fun d => (d.code, declVal (namesOf env.enumDecode) d)) d.code
+          = some (declVal (namesOf env.enumDecode) d) := by
+  simp only [wfAbbrevs, Bool.and_eq_true, decide_eq_true_eq] at hwf
+  obtain ⟨⟨h1, h2⟩, h3⟩ := hwf
+  refine ⟨?_, fun d hd => mapGet_table _ ds d hd h2⟩
+  rw [abbrev_roundtrip env hok c ds endLen h1 h3 pre rest hoff, abbrevMap_nodup _ ds h2]
+
+/-! ### one entry -/
+
+/--
+  die_roundtrip.  `DIE(cu, stream, offset)` on an encoded entry at its offset, in any unit context
+  whose struct bundle is the standard's for configuration `c` (all 32) and whose form names are
+  the standard's (`UnitOK`): the observation is exactly `entryObs` — offset, size, abbreviation
+  code, tag, child flag and, in order, each attribute's name, final form, raw value, value and
+  offset.  Covers every form of the table, DW_FORM_indirect chains of any length (each code in any
+  LEB128 padding), DW_FORM_implicit_const (value from the declaration, no bytes).
+  Hypotheses: the node is well formed against its declaration (`wfNode`), the unit's abbreviation
+  table has the declaration under the node's code (`hdecl`; abbrev_roundtrip_table), the value
+  translation of each attribute succeeds with `ρ` (`htr`; see translate_resolve), attribute names
+  are distinct (`hdist`), the offset is seekable.
+-/
+theorem die_roundtrip {U : UnitCtx} {c : DwarfCfg} {nm : Names} (hU : UnitOK U c nm) (ti : Option (List AttrObs))
+    (ρ : Val → Val → Val) (n : Node) {off : Nat} {rest : Bytes} {m : List (Nat × Val)}
+    (hwf : wfNode c n = true) (hoff : off < 2 ^ 63) (hab : U.abbrevs = .ok m)
+    (hdecl : mapGet? m n.decl.code = some (declVal nm n.decl))
+    (htr : TransOK U ti nm ρ n.decl.specs n.attrs) (hdist : DistinctAt nm n.decl.specs)
+    (hd : U.data.drop off = encEntry c n ++ rest) :
+    parseDIE U ti off = .ok (entryObs nm c ρ off n) :=
+  parseDIE_encoded hU ti ρ n hwf hoff hab hdecl htr (namesDistinct_attrObs nm c ρ _ _ _ hdist) hd
+
+/-- a null entry: abbreviation code 0 in any LEB128 padding; its size is the padding's length -/
+theorem die_null_roundtrip {U : UnitCtx} {c : DwarfCfg} {nm : Names} (hU : UnitOK U c nm) (ti : Option (List AttrObs))
+    {off l : Nat} {rest : Bytes} (hl : 1 ≤ l) (hoff : off < 2 ^ 63) (hd : U.data.drop off = encUlebN l 0 ++ rest) :
+    parseDIE U ti off = .ok (nullObs off l) :=
+  parseDIE_null hU ti hl hoff hd
+
+/-- the regenerated registry and `DW_FORM_raw2name` satisfy `UnitOK`'s naming clauses -/
+theorem unit_ok_gen (U : UnitCtx) (c : DwarfCfg) (hS : U.S = Spec.dwarfStructs c) (hr : U.raw2name = genRaw2name) :
+    UnitOK U c (namesOf Model.genEnumDecode) where
+  structs := hS
+  raw2name := fun k hk => by
+    have := List.all_eq_true.1 TieC04.raw2name_forms k hk
+    rw [hr]; simpa using this
+  formNames := fun k hk => by
+    have h1 := List.all_eq_true.1 TieC04.enum_forms k hk
+    have h2 : Model.genEnumDecode "ENUM_DW_FORM" k = formName k := by simpa using h1
+    obtain ⟨h3, _⟩ := formFacts' hk
+    show Engine.enumVal Model.genEnumDecode "ENUM_DW_FORM" k = _
+    rw [Engine.enumVal, h2]
+    cases hf : formName k with
+    | none => rw [hf] at h3; cases h3
+    | some s => rfl
+
+/-! ### the unit: iteration without the cache hypothesis -/
+
+/--
+  iter_dies_of_translation (intermediate form of `iter_dies_exact` below, abstract in the value
+  functions `ρtop`, `ρ`): for the bytes of an encoded tree at the unit's first-entry offset, with
+  `G := _get_cached_DIE` as parse-on-miss (`getCachedDIE`; the cache refinement is C10), driving
+  `iter_DIEs` to exhaustion yields exactly `flattenUnit` with the encoded parents — the `Covered`
+  hypothesis of `iter_dies_flatten` is discharged by `die_roundtrip`.  Hypotheses left here: what
+  `get_top_DIE` returns (`htop`) and that each value translates to `ρ` (`TransOK` in `NodeOK`);
+  `iter_dies_exact` discharges both from "every value resolves".
+-/
+theorem iter_dies_of_translation {U : UnitCtx} {c : DwarfCfg} {nm : Names} (hU : UnitOK U c nm)
+    (hnm : ∀ x, nm.tag x ≠ Val.none) (ρtop ρ : Val → Val → Val) {m : List (Nat × Val)} (hab : U.abbrevs = .ok m)
+    (n : Node) (kids : List Tree) (nl : Nat) {rest : Bytes} (fuel : Nat) (hfuel : (Tree.mk n kids nl).count ≤ fuel)
+    (hwf : wfTree c (.mk n kids nl) = true)
+    (hd : U.data.drop U.cuDieOffset = encTree c (.mk n kids nl) ++ rest) (hlen : U.data.length ≤ 2 ^ 63)
+    (htop : getTopDIE U = .ok (entryObs nm c ρtop U.cuDieOffset n))
+    (hkids : ForestAll (NodeOK U (some (entryObs nm c ρtop U.cuDieOffset n).attrs) nm ρ m) kids)
+    (hsib : sibsOk nm c ρ U.cuOffset U.cuDieOffset (.mk n kids nl) = true) :
+    iterDIEs (getCachedDIE U) U.cuOffset U.cuDieOffset fuel
+      = .ok (flattenUnitP nm c ρtop ρ U.cuDieOffset (.mk n kids nl)) :=
+  iter_dies_flatten hnm c ρtop ρ (getCachedDIE U) U.cuOffset U.cuDieOffset fuel _ hfuel
+    (covered_unit hU ρtop ρ hab n kids nl hwf hd hlen htop hkids) hsib
+
+/-! ### value translation -/
+
+/--
+  translate_resolve.  `DIE._translate_attr_value(form, raw_value)` with the cached top entry at hand
+  against the standard's `resolve`, under an explicit layout of the referenced sections (`SecsOK`:
+  the unit sees these sections, its format / address size are the configuration's, every section is
+  shorter than 2^63) and with the top entry presenting the unit's bases (`BasesOK`):
+  DW_FORM_strp / line_strp → the NUL-terminated string at that offset of .debug_str / .debug_line_str
+  (`None` for one running into the section end); strx* → the string at the offset stored in slot
+  `str_offsets_base + i·offset_size` of .debug_str_offsets; addrx* → the address in slot
+  `addr_base + i·address_size` of .debug_addr; loclistx / rnglistx → `base + ` the slot of the offset
+  table; flag / flag_present → bool; everything else → the raw value.  Whenever `resolve` designates
+  a value (the reference does not dangle) the translation returns exactly it.
+-/
+theorem translate_resolve {U : UnitCtx} {c : DwarfCfg} {nm : Names} {secs : Sections} (hU : UnitOK U c nm)
+    (hS : SecsOK U c secs) {top : List AttrObs} {b : Bases} (hB : BasesOK top b) (name : String) (r v : Val)
+    (hint : name ∈ intForms → ∃ n : Nat, r = .int n) (hres : resolve c secs b (.str name) r = some v) :
+    translate U (some top) (.str name) r = .ok v :=
+  Proofs.C04.translate_resolve hU hS hB name r v hint hres
+
+/-- … while the top entry itself is being parsed (`translate_indirect = False`): the index forms stay
+    raw (`preResolve`), the rest is translated as above -/
+theorem translate_pre_resolve {U : UnitCtx} {c : DwarfCfg} {secs : Sections} (hS : SecsOK U c secs) (b : Bases)
+    (name : String) (r v : Val) (hint : name ∈ intForms → ∃ n : Nat, r = .int n)
+    (hres : preResolve c secs b (.str name) r = some v) :
+    translate U none (.str name) r = .ok v :=
+  translate_none hS b name r v hint hres
+
+/-- `get_top_DIE()`: parse, then `_translate_indirect_attributes` against the entry's own base attributes
+    (DW_AT_str_offsets_base, DW_AT_addr_base, DW_AT_loclists_base, DW_AT_rnglists_base in
+    DW_FORM_sec_offset, wherever they stand among the attributes) — the entry with every value resolved -/
+theorem top_die_roundtrip {U : UnitCtx} {c : DwarfCfg} {nm : Names} {secs : Sections} (hU : UnitOK U c nm)
+    (hS : SecsOK U c secs) (hat : ∀ k, (nm.at_ k == nm.at_ k) = true) (hbn : BaseNames nm) (n : Node)
+    {rest : Bytes} {m : List (Nat × Val)} (hwf : wfNode c n = true) (hoff : U.cuDieOffset < 2 ^ 63)
+    (hab : U.abbrevs = .ok m) (hdecl : mapGet? m n.decl.code = some (declVal nm n.decl))
+    (hdist : DistinctAt nm n.decl.specs) (hres : ResolvesAll c secs (basesOf n) nm n.decl.specs n.attrs)
+    (hd : U.data.drop U.cuDieOffset = encEntry c n ++ rest) :
+    getTopDIE U = .ok (entryObs nm c (rho c secs (basesOf n)) U.cuDieOffset n) :=
+  getTopDIE_encoded hU hS hat hbn n hwf hoff hab hdecl hdist hres hd
+
+/--
+  iter_dies_exact.  For the bytes of an encoded tree at the unit's first-entry offset, in a unit
+  context with the standard's struct bundle / form names (`UnitOK`) that sees the sections `secs`
+  (`SecsOK`): if the tree is well formed (`wfTree`), every node's declaration is in the unit's
+  abbreviation table under its code, attribute names are distinct and every value resolves
+  (`NodeWF`; the bases are those of the top entry), and DW_AT_sibling attributes designate the next
+  sibling (`sibsOk`), then `list(cu.iter_DIEs())` — with `_get_cached_DIE` as parse-on-miss; the
+  cache refinement is C10 — is exactly the encoded sequence `flattenUnit` (offset, size, code, tag,
+  child flag, attributes with name / final form / raw value / resolved value / offset, null entries
+  closing the sibling lists they terminate), each entry with the parent the nesting gives it.
+  No hypothesis about the cache or about what the entry decoder returns is left.
+-/
+theorem iter_dies_exact {U : UnitCtx} {c : DwarfCfg} {nm : Names} {secs : Sections} (hU : UnitOK U c nm)
+    (hS : SecsOK U c secs) (hnm : ∀ x, nm.tag x ≠ Val.none) (hat : ∀ k, (nm.at_ k == nm.at_ k) = true)
+    (hbn : BaseNames nm) {m : List (Nat × Val)} (hab : U.abbrevs = .ok m) (n : Node) (kids : List Tree) (nl : Nat)
+    {rest : Bytes} (fuel : Nat) (hfuel : (Tree.mk n kids nl).count ≤ fuel) (hwf : wfTree c (.mk n kids nl) = true)
+    (hd : U.data.drop U.cuDieOffset = encTree c (.mk n kids nl) ++ rest) (hlen : U.data.length ≤ 2 ^ 63)
+    (hnodes : TreeAll (NodeWF c secs (basesOf n) nm m) (.mk n kids nl))
+    (hsib : sibsOk nm c (rho c secs (basesOf n)) U.cuOffset U.cuDieOffset (.mk n kids nl) = true) :
+    iterDIEs (getCachedDIE U) U.cuOffset U.cuDieOffset fuel
+      = .ok (flattenUnitP nm c (rho c secs (basesOf n)) (rho c secs (basesOf n)) U.cuDieOffset (.mk n kids nl)) :=
+  iter_dies_flatten hnm c _ _ (getCachedDIE U) U.cuOffset U.cuDieOffset fuel _ hfuel
+    (covered_unit_wf hU hS hat hbn hab n kids nl hwf hd hlen hnodes) hsib
+
+/-! ### unit headers -/
+
+/--
+  unit_header_roundtrip.  `_parse_CU_at_offset` on an encoded unit anywhere in `.debug_info`: DWARF
+  versions 2–5, both DWARF formats (format detection from the initial length), and for version 5 all
+  six unit types through the `ENUM_DW_UT` switch (compile, partial: no extra field; skeleton,
+  split_compile: dwo_id; type, split_type: type_signature and type_offset).  The unit object has the
+  header container of `unitHdrVal`, the format, the unit offset and the first-entry offset.
+  (Generalises C13's `parseCU_encoded`, versions 2–4.)
+-/
+theorem unit_header_roundtrip (enumDecode : String → Int → Option String)
+    (hUT : ∀ k : Nat, 1 ≤ k → k ≤ 6 → enumDecode "ENUM_DW_UT" k = Lookup.utName k) (le : Bool) (dasz : Nat)
+    (u : Lookup.InfoUnit) (hwf : Lookup.wfUnit le u = true) (pre rest : Bytes) :
+    Proofs.Lookup.specP enumDecode le dasz (pre ++ Lookup.encUnit le u ++ rest) pre.length
+      = .ok (Proofs.Lookup.cuOf le pre.length u) :=
+  parseCU_encoded_all hUT hwf (drop_pre pre _ rest)
+
+/-- a whole `.debug_info` of mixed-version units is a chain for `_parse_CUs_iter` (C13's
+    `chain_encoded_partial` without the version restriction) -/
+theorem unit_chain (enumDecode : String → Int → Option String)
+    (hUT : ∀ k : Nat, 1 ≤ k → k ≤ 6 → enumDecode "ENUM_DW_UT" k = Lookup.utName k) (le : Bool) (dasz : Nat)
+    (us : List Lookup.InfoUnit) (hwf : ∀ u ∈ us, Lookup.wfUnit le u = true) :
+    Proofs.Lookup.Chain (Proofs.Lookup.specP enumDecode le dasz (Lookup.encUnits le us)) (Lookup.encUnits le us).length 0
+      (Proofs.Lookup.cusOf le 0 us) :=
+  chain_encoded_all hUT us 0 hwf (by simp) (by simp)
+
+/-- `_parse_TU_at_offset` on an encoded type unit of `.debug_types` (DWARF 4 §7.5.1.2), both formats:
+    header container (unit_length, version, debug_abbrev_offset, address_size, signature, type_offset),
+    format, offsets; and `TypeUnit.size` is the encoded extent -/
+theorem type_unit_header_roundtrip (enumDecode : String → Int → Option String) (le : Bool) (dasz : Nat)
+    (h : TUHeader) (body : Bytes) (hwf : wfTU le h body = true) (pre rest : Bytes) :
+    specTU enumDecode le dasz (pre ++ encTU le h body ++ rest) pre.length = .ok (tuOf le pre.length h body)
+      ∧ (tuOf le pre.length h body).size = .ok (encTU le h body).length :=
+  ⟨parseTU_encoded hwf (drop_pre pre _ rest), tuOf_size le pre.length h body⟩
+
+/-! ### tiling up to the declared length -/
+
+theorem flattenUnit_tiles (nm : Names) (c : DwarfCfg) (ρtop ρ : Val → Val → Val) (t : Tree) (off : Nat) :
+    Tiles off (flattenUnit nm c ρtop ρ off t) (off + (encTree c t).length) := by
+  obtain ⟨n, kids, nl⟩ := t
+  have h := flatten_tiles nm c ρ (.mk n kids nl) off
+  rw [flatten] at h
+  rw [flattenUnit]
+  exact ⟨rfl, h.2⟩
+
+/--
+  tiling_unit.  For a unit of `.debug_info` whose bytes behind the header are an encoded tree: the
+  entries `iter_DIEs` must yield lie back to back, without gap or overlap, from the unit's first-entry
+  offset (`cu_die_offset`) to `cu_offset + size`, where `size = unit_length + initial-length field` is
+  what `CompileUnit.size` computes from the DECLARED length of the parsed header.
+-/
+theorem tiling_unit (nm : Names) (c : DwarfCfg) (ρtop ρ : Val → Val → Val) (le : Bool) (off : Nat)
+    (u : Lookup.InfoUnit) (t : Tree) (hbody : u.body = encTree c t) :
+    ∃ sz, (Proofs.Lookup.cuOf le off u).size = .ok sz ∧
+      Tiles (Proofs.Lookup.cuOf le off u).cuDieOffset
+        (flattenUnit nm c ρtop ρ (Proofs.Lookup.cuOf le off u).cuDieOffset t) ((Proofs.Lookup.cuOf le off u).cuOffset + sz) := by
+  refine ⟨Lookup.unitSize le u, cuOf_size_all, ?_⟩
+  have h := flattenUnit_tiles nm c ρtop ρ t (off + u.ilSize + (Lookup.unitHdrRest le u).length)
+  have e : off + u.ilSize + (Lookup.unitHdrRest le u).length + (encTree c t).length = off + Lookup.unitSize le u := by
+    rw [← hbody]; simp only [Lookup.unitSize, Lookup.unitLength]; omega
+  rw [e] at h
+  exact h
+
+/-- … and for a type unit of `.debug_types` -/
+theorem tiling_type_unit (nm : Names) (c : DwarfCfg) (ρtop ρ : Val → Val → Val) (le : Bool) (off : Nat)
+    (h : TUHeader) (t : Tree) :
+    ∃ sz, (tuOf le off h (encTree c t)).size = .ok sz ∧
+      Tiles (tuOf le off h (encTree c t)).cuDieOffset
+        (flattenUnit nm c ρtop ρ (tuOf le off h (encTree c t)).cuDieOffset t) ((tuOf le off h (encTree c t)).cuOffset + sz) := by
+  refine ⟨_, tuOf_size le off h _, ?_⟩
+  have ht := flattenUnit_tiles nm c ρtop ρ t (off + h.ilSize + (tuHdrRest le h).length)
+  have e : off + h.ilSize + (tuHdrRest le h).length + (encTree c t).length = off + (encTU le h (encTree c t)).length := by
+    cases hf : h.fmt64 <;>
+      simp [encTU, Lookup.encInitialLength, TUHeader.ilSize, hf, encNat_length] <;> omega
+  rw [e] at ht
+  exact ht
+
+/-! ### children, parents -/
+
+/-- the parents `flattenUnitP` records are the (parent, child) pairs of the encoded nesting -/
+theorem flattenUnitP_parents (nm : Names) (c : DwarfCfg) (ρtop ρ : Val → Val → Val) (off : Nat) (t : Tree) :
+    parentsOf (flattenUnitP nm c ρtop ρ off t) = parentPairs c off t := by
+  obtain ⟨n, kids, nl⟩ := t
+  have h := parentsOf_flattenP nm c ρ (.mk n kids nl) none off
+  rw [flattenP] at h
+  have e : parentsOf ((entryObs nm c ρ off n, (none : Option Nat)) ::
+      (if n.decl.children then flattenForestP nm c ρ off (off + (encEntry c n).length) kids ++
+        [(nullObs (off + (encEntry c n).length + (encForest c kids).length) nl, some off)] else []))
+      = parentsOf (if n.decl.children then flattenForestP nm c ρ off (off + (encEntry c n).length) kids ++
+        [(nullObs (off + (encEntry c n).length + (encForest c kids).length) nl, some off)] else []) := by
+    simp [parentsOf]
+  rw [e] at h
+  simp only [flattenUnitP, Tree.root, flattenP, List.tail_cons]
+  have e2 : parentsOf ((entryObs nm c ρtop off n, (none : Option Nat)) ::
+      (if n.decl.children then flattenForestP nm c ρ off (off + (encEntry c n).length) kids ++
+        [(nullObs (off + (encEntry c n).length + (encForest c kids).length) nl, some off)] else []))
+      = parentsOf (if n.decl.children then flattenForestP nm c ρ off (off + (encEntry c n).length) kids ++
+        [(nullObs (off + (encEntry c n).length + (encForest c kids).length) nl, some off)] else []) := by
+    simp [parentsOf]
+  rw [e2, h]; simp
+
+/--
+  children_parent_exact.  Under the hypotheses of `iter_dies_exact`: (1) the entries `iter_DIEs`
+  yields carry as recorded parents (`get_parent()`) exactly the (parent, child) pairs of the encoded
+  nesting (`parentPairs`: every entry below the top one, null entries included, the top entry has
+  none); (2) for every entry, in order, `[c.offset for c in die.iter_children()]` — sibling
+  shortcuts, terminators found by walking nested lists — is the list of its encoded children
+  (`childLists`; none for childless and null entries).
+-/
+theorem children_parent_exact {U : UnitCtx} {c : DwarfCfg} {nm : Names} {secs : Sections} (hU : UnitOK U c nm)
+    (hS : SecsOK U c secs) (hnm : ∀ x, nm.tag x ≠ Val.none) (hat : ∀ k, (nm.at_ k == nm.at_ k) = true)
+    (hbn : BaseNames nm) {m : List (Nat × Val)} (hab : U.abbrevs = .ok m) (n : Node) (kids : List Tree) (nl : Nat)
+    {rest : Bytes} (fuel : Nat) (hfuel : (Tree.mk n kids nl).count ≤ fuel) (hwf : wfTree c (.mk n kids nl) = true)
+    (hd : U.data.drop U.cuDieOffset = encTree c (.mk n kids nl) ++ rest) (hlen : U.data.length ≤ 2 ^ 63)
+    (hnodes : TreeAll (NodeWF c secs (basesOf n) nm m) (.mk n kids nl))
+    (hsib : sibsOk nm c (rho c secs (basesOf n)) U.cuOffset U.cuDieOffset (.mk n kids nl) = true) :
+    (∃ l, iterDIEs (getCachedDIE U) U.cuOffset U.cuDieOffset fuel = .ok l ∧
+        parentsOf l = parentPairs c U.cuDieOffset (.mk n kids nl)) ∧
+      (flattenUnit nm c (rho c secs (basesOf n)) (rho c secs (basesOf n)) U.cuDieOffset (.mk n kids nl)).map
+          (childrenOf (getCachedDIE U) U.cuOffset fuel)
+        = (childLists c U.cuDieOffset (.mk n kids nl)).map .ok :=
+  ⟨⟨_, iter_dies_exact hU hS hnm hat hbn hab n kids nl fuel hfuel hwf hd hlen hnodes hsib,
+     flattenUnitP_parents nm c _ _ _ _⟩,
+   children_unit hnm c _ _ (getCachedDIE U) U.cuOffset fuel _ _ hfuel
+     (covered_unit_wf hU hS hat hbn hab n kids nl hwf hd hlen hnodes) hsib⟩
+
+/-! ### section-relative references -/
+
+/--
+  ref_section_relative.  `DWARFInfo.get_DIE_from_refaddr(x)` for a DW_FORM_ref_addr value `x` that
+  designates the entry `d` of the unit `u` starting at `o` in a `.debug_info` of mixed-version units
+  (2–5, all unit types): from every reachable state of the unit cache, `get_CU_containing(x)` returns
+  the unit whose extent contains `x` (C13's lookup theorem, now over all versions through
+  `unit_chain`), and that unit's `get_DIE_from_refaddr(x)` — range check against the first-entry
+  offset and the declared size, then `_get_cached_DIE` — returns `d`.  `U` is the context of that unit
+  (`hUo`, `hUd`, `hUs`), `hcov` is what `iter_dies_exact`'s proof establishes for it (`covered_unit_wf`).
+-/
+theorem ref_section_relative (enumDecode : String → Int → Option String)
+    (hUT : ∀ k : Nat, 1 ≤ k → k ≤ 6 → enumDecode "ENUM_DW_UT" k = Lookup.utName k) (le : Bool) (dasz : Nat)
+    (us : List Lookup.InfoUnit) (hwf : ∀ u ∈ us, Lookup.wfUnit le u = true) (st : Model.Lookup.CUCache)
+    (hinv : Proofs.Lookup.Inv (Proofs.Lookup.specP enumDecode le dasz (Lookup.encUnits le us)) (Proofs.Lookup.cusOf le 0 us) st)
+    (x o : Nat) (u : Lookup.InfoUnit) (hu : Lookup.unitContaining le us x = some (o, u))
+    (U : UnitCtx) (hUo : U.cuOffset = o) (hUd : U.cuDieOffset = (Proofs.Lookup.cuOf le o u).cuDieOffset)
+    (hUs : U.size = Lookup.unitSize le u) (l : List DieObs) (hcov : Covered (getCachedDIE U) l) (d : DieObs)
+    (hd : d ∈ l) (hdx : d.offset = x) (hlo : U.cuDieOffset ≤ x) :
+    (∃ st', Model.Lookup.getCUContaining (Proofs.Lookup.specP enumDecode le dasz (Lookup.encUnits le us))
+          (Lookup.encUnits le us).length st x = (.ok (Proofs.Lookup.cuOf le o u), st') ∧
+        Proofs.Lookup.Inv (Proofs.Lookup.specP enumDecode le dasz (Lookup.encUnits le us)) (Proofs.Lookup.cusOf le 0 us) st')
+      ∧ unitDIEFromRefaddr U x = .ok d := by
+  have hm := List.mem_of_find?_eq_some hu
+  have hp := List.find?_some hu
+  simp only [decide_eq_true_eq] at hp
+  refine ⟨Proofs.Lookup.getCUContaining_exact (fun o c h => Proofs.Lookup.parseCU_offset o c h)
+    (unit_chain enumDecode hUT le dasz us hwf) hinv (Proofs.Lookup.mem_cusOf us 0 o u hm) cuOf_size_all hp.1 hp.2, ?_⟩
+  rw [← hdx]
+  exact ref_unit_relative U l hcov d hd ⟨by rw [hdx]; exact hlo, by rw [hdx, hUo, hUs]; exact hp.2⟩
+
+/-! ### signature references -/
+
+/--
+  ref_sig8_partial.  Full statement (the property's clause): a DW_FORM_ref_sig8 value resolves to the
+  entry at the type_offset of the type unit carrying that signature — in `.debug_types` (DWARF 4) or,
+  for DWARF 5, a DW_UT_type / DW_UT_split_type unit of `.debug_info`.  The DWARF 5 half is FALSE of the
+  code (`get_DIE_by_sig8` scans `.debug_types` only: KeyError) — known finding `sig8-v5-type-unit`,
+  recorded, not repaired.  Proved: the `.debug_types` half, on the unit list `_parse_debug_types` built
+  (`units`, scan completed): if the last unit carrying the signature is `cu` with context `U`, and the
+  entry `d` of that unit lies at `cu_offset + type_offset`, `get_DIE_by_sig8` returns `d` of that unit.
+  (That `units` is the list of encoded type units is `type_unit_header_roundtrip` unit by unit; the
+  chain over a whole `.debug_types` is not stated.)
+-/
+theorem ref_sig8_partial (pre post : List (Model.Lookup.CU × R UnitCtx)) (cu : Model.Lookup.CU) (U : UnitCtx) (sig : Int)
+    (to : Nat) (hsig : cu.header.getInt "signature" = .ok sig)
+    (hlast : ∀ p ∈ post, p.1.header.getInt "signature" ≠ .ok sig) (hto : cu.header.getNat "type_offset" = .ok to)
+    (l : List DieObs) (hcov : Covered (getCachedDIE U) l) (d : DieObs) (hd : d ∈ l) (hdx : d.offset = cu.cuOffset + to) :
+    dieBySig8 getCachedDIE (pre ++ (cu, .ok U) :: post) none sig = .ok (cu.cuOffset, d) := by
+  have hfold : ∀ (f : Option (Model.Lookup.CU × R UnitCtx) → Model.Lookup.CU × R UnitCtx → Option (Model.Lookup.CU × R UnitCtx))
+      (ps : List (Model.Lookup.CU × R UnitCtx)) (acc : Option (Model.Lookup.CU × R UnitCtx)),
+      (∀ acc p, p ∈ ps → f acc p = acc) → ps.foldl f acc = acc := by
+    intro f ps
+    induction ps with
+    | nil => intro acc _; rfl
+    | cons p ps ih =>
+      intro acc h
+      rw [List.foldl_cons, h acc p (by simp)]
+      exact ih acc (fun a q hq => h a q (by simp [hq]))
+  have hG := hcov d hd
+  rw [hdx] at hG
+  unfold dieBySig8
+  simp only [bind, Except.bind, pure, Except.pure, List.foldl_append, List.foldl_cons, hsig, if_true]
+  rw [hfold _ post _ (fun acc p hp => by
+    obtain ⟨cu', rU'⟩ := p
+    have hne := hlast _ hp
+    simp only at hne ⊢
+    cases hg : cu'.header.getInt "signature" with
+    | error e => rfl
+    | ok s =>
+      have : ¬ s = sig := fun e => hne (by rw [hg, e])
+      simp [this])]
+  simp only [hto, hG]
+
 /-! ### non-vacuity -/
 
 /-- a two-level tree: a parent that owns children and carries DW_AT_sibling (DW_FORM_ref4), a
@@ -147,5 +528,104 @@ example : wfTree exCfg exTree = true := by decide
 example : sibsOk exNames exCfg (fun _ r => r) 0 11 exTree = true := by decide
 example : encTree exCfg exTree = [1, 2, 21, 0, 0, 0, 3, 7, 0x80, 0, 3, 9, 0] := by decide
 example : exTree.count = 6 := by decide
+
+
+/-! ### non-vacuity of the entry / unit layer -/
+
+/-- a registry for the examples: the names the theorems look at, numbers otherwise -/
+def exNames2 : Names :=
+  { tag := fun n => .int n,
+    at_ := fun n => if n = 1 then .str "DW_AT_sibling" else if n = 0x72 then .str "DW_AT_str_offsets_base"
+      else if n = 0x73 then .str "DW_AT_addr_base" else if n = 0x74 then .str "DW_AT_rnglists_base"
+      else if n = 0x8c then .str "DW_AT_loclists_base" else .int n,
+    form := fun n => match formName n with | some s => .str s | none => .int n }
+
+/-- a unit with a top entry carrying DW_AT_str_offsets_base and a DW_FORM_strx1 name, a child with
+    DW_AT_sibling (ref4) and an indirect (→ data1, two-level chain) attribute, a grandchild with an
+    implicit_const and a strp -/
+def exD0 : AbbrevDecl :=
+  { code := 1, tag := 0x11, children := true, specs := [{ name := 0x03, form := 0x25 }, { name := 0x72, form := 0x17 }] }
+def exD1 : AbbrevDecl :=
+  { code := 2, tag := 0x2e, children := true, specs := [{ name := 0x01, form := 0x13 }, { name := 0x3e, form := 0x16 }] }
+def exD2 : AbbrevDecl :=
+  { code := 300, tag := 0x34, children := false, codeLen := 3,
+    specs := [{ name := 0x3a, form := 0x21, const := -5 }, { name := 0x03, form := 0x0e }] }
+def exDecls2 : List AbbrevDecl := [exD0, exD1, exD2]
+
+def exN0 : Node := { decl := exD0, attrs := [{ form := 0x25, op := .nat 1 }, { form := 0x17, op := .nat 8 }] }
+def exN1 : Node := { decl := exD1, attrs := [{ form := 0x13, op := .nat 34 }, { ind := [2, 1], form := 0x0b, op := .nat 7 }] }
+def exN2 : Node := { decl := exD2, codeLen := 2, attrs := [{ form := 0x21, op := .implicit }, { form := 0x0e, op := .nat 2 }] }
+
+def exTree2 : Tree := .mk exN0 [.mk exN1 [.mk exN2 [] 1] 2] 1
+
+def exSecs : Sections :=
+  { str := some [0x61, 0, 0x62, 0x63, 0], strOffsets := some [0, 0, 0, 0, 0, 0, 0, 0, 0, 0, 0, 0, 2, 0, 0, 0] }
+
+def exU : UnitCtx :=
+  { S := Spec.dwarfStructs exCfg, env := Env.empty, data := List.replicate 11 0xAA ++ encTree exCfg exTree2 ++ [0xBB],
+    abbrevs := .ok (abbrevMap exNames2 exDecls2), cuOffset := 0, cuDieOffset := 11, size := 35, fmt := 32, addrSize := 4,
+    secs := exSecs, raw2name := formName }
+
+example : encTree exCfg exTree2 = [1, 1, 8, 0, 0, 0, 2, 34, 0, 0, 0, 0x96, 0, 0x0b, 7, 0xac, 2, 2, 0, 0, 0, 0x80, 0, 0] := by decide
+
+
+theorem exU_ok : UnitOK exU exCfg exNames2 where
+  structs := rfl
+  raw2name := fun _ _ => rfl
+  formNames := fun k hk => by
+    have h : formCodes.all (fun k => (formName k).isSome) = true := by decide
+    have := List.all_eq_true.1 h k hk
+    show (match formName k with | some s => Val.str s | none => Val.int k) = _
+    cases hf : formName k with
+    | none => rw [hf] at this; cases this
+    | some s => rfl
+
+theorem exSecs_ok : SecsOK exU exCfg exSecs where
+  secsEq := rfl
+  fmt := rfl
+  asz := rfl
+  fmtOK := Or.inl rfl
+  aszPos := by decide
+  small := fun s h => by
+    rcases h with h | h | h | h | h | h <;> simp [exSecs] at h <;> subst h <;> decide
+
+theorem exNames2_refl (k : Nat) : (exNames2.at_ k == exNames2.at_ k) = true := by
+  simp only [exNames2]
+  repeat' split
+  all_goals simp [BEq.beq, Val.beq]
+
+theorem exNames2_base : BaseNames exNames2 := by
+  constructor <;> intro k <;> simp only [exNames2] <;> repeat' split
+  all_goals simp_all [BEq.beq, Val.beq]
+
+/-- iter_dies_exact / children_parent_exact are not vacuous: a concrete unit (top entry with
+    DW_AT_str_offsets_base and a DW_FORM_strx1 name resolved through .debug_str_offsets, a child with
+    DW_AT_sibling and a two-level DW_FORM_indirect chain, a grandchild with a padded three-digit code,
+    DW_FORM_implicit_const and DW_FORM_strp, padded null entries) satisfies every hypothesis -/
+example : iterDIEs (getCachedDIE exU) 0 11 6
+    = .ok (flattenUnitP exNames2 exCfg (rho exCfg exSecs (basesOf exTree2.root)) (rho exCfg exSecs (basesOf exTree2.root))
+        11 exTree2) :=
+  iter_dies_exact (secs := exSecs) (rest := [0xBB]) exU_ok exSecs_ok (fun _ => by simp [exNames2]) exNames2_refl exNames2_base
+    (m := abbrevMap exNames2 exDecls2) rfl _ _ _ 6 (by decide) (by decide) (by decide) (by decide)
+    (by
+      refine ⟨⟨rfl, ?_, ?_⟩, ⟨⟨rfl, ?_, ?_⟩, ⟨⟨rfl, ?_, ?_⟩, trivial⟩, trivial⟩, trivial⟩
+      all_goals first
+        | (simp only [DistinctAt, exTree2, Tree.root, exN0, exN1, exN2, exD0, exD1, exD2]; decide)
+        | (simp only [ResolvesAll, exTree2, Tree.root, exN0, exN1, exN2, exD0, exD1, exD2]; decide))
+    (by decide)
+
+
+example : wfAbbrevs exDecls2 2 = true := by decide
+example : wfTree exCfg exTree2 = true := by decide
+/-- the abbreviation table of the example, as `abbrev_roundtrip_table` presents it -/
+example : (abbrevMap exNames2 exDecls2).map (·.1) = [1, 2, 300] := by decide
+
+/-- unit headers: a DWARF 5 split type unit in 64-bit format, a DWARF 4 type unit -/
+def exUnit5 : Lookup.InfoUnit :=
+  { fmt64 := true, version := 5, utype := 6, abbrevOff := 7, asz := 8, id8 := 0x1122334455667788, typeOff := 40,
+    body := encTree exCfg exTree2 }
+def exTU4 : TUHeader := { fmt64 := false, version := 4, abbrevOff := 0, asz := 4, signature := 5, typeOff := 23 }
+example : Lookup.wfUnit true exUnit5 = true := by decide
+example : wfTU false exTU4 (encTree exCfg exTree2) = true := by decide
 
 end PyElf.Props.C04
